@@ -4,11 +4,11 @@ from . import common as C
 
 MANIFEST = dict(
    technique="Lean 4 proof about a transcription of FlattenError/TreeifyError/FormatError/PrettifyError/ToDotPath (count, placement and path-injectivity theorems over all issue trees and all paths) + whole-table theorems over a go/ast translation of gozod.go's re-exports and errors.go's thin entry points + differential correspondence of the model and of an independent grouping oracle against the real formatters, through every exported entry point, on generated and Parse-produced ZodErrors",
-   text="Theorems c19_flatten_count/_place, c19_tree_count/_place, c19_format_count (full since cef00ff), c19_format_place (exact outside the reserved key \"_errors\", modulo reserved segments for every error: c19_format_place_strip; a witness theorem shows the misplacement inside that region), c19_prettify_count/_place, c19_nonempty prove for every issue list (any codes, typed paths, union branches and sub-issues nested to any depth) that each report carries exactly one message per issue (per nested leaf for wrapper issues in FormatError), filed at the position the path denotes. c19_dotpath_esc_injective proves for ToDotPath as it stands (quoted keys escaped, since c7ce73a) that two different paths of any length with arbitrary keys never render alike, so PrettifyError, PrettifyErrorWithFormatter and err.Error() (c19_error_eq_prettify) name every position unambiguously. c19_exports_are_internal/_cover, c19_wrappers_as_expected, c19_errors_go_accounted and c19_error_method_as_expected are decided over a table regenerated from gozod.go and internal/issues/errors.go on every run: each exported formatter is the internal function of the same name, each thin entry point hands the unchanged error to the transcribed function with defaultIssueMapper of the right formatter, and no function of errors.go is unaccounted for. The hand-written model is tied to /repo by running model, spec oracle and the real formatters — through the plain entry points, err.Error(), the WithMapper/WithFormatter variants with custom mappers and formatters, and SetFormatter — on thousands of synthesised issue trees and real failing Parse calls and comparing canonical renderings; structure fingerprints of the 16 Go functions involved aim the run when one is edited.",
-   note="Round 4b: every ZodError — path elements of any Go type (the library files Map keys and Set elements of any comparable type in paths: Gen/C19PathTypes.lean, regenerated with go/types, c19_path_types_covered / _any_sources) and nil errors are in the model (Model/IssuesGo.lean), the spec, the generator and the Parse stream; c19_go_tree_place, c19_go_never_panics, c19_go_*_count are the full statements for them, by refinement to the position-level model (flattenGo_eq, formatGo_eq, treeifyGo_eq); c19_parse_dotpath / c19_parse_dotpath_go: the dot notation parses back to the path (injectivity is a corollary). Fixed in /repo: c65f4c0 (TreeifyError panic on negative ints, other types ignored), 6ff3a13 (ToDotPath [%v]), e8b2b50 (nil *ZodError). Trusted: Lean kernel; axioms propext/Classical.choice/Quot.sound only; the Go harness, hex line protocol and comparer; the go/ast translator (source text only). The model is a hand transcription validated on generated cases. Issue.msg stands for mapper(issue): the default formatter's text is taken from the library, custom mappers/formatters are computed by the harness. fmt's %v of a path element of another type is computed by the harness with the same call (trusted). FormatError's reserved key \"_errors\" is an open known finding for the placement only (since cef00ff no message is lost; the placement cannot be repaired within the report shape).",
+   text="Theorems c19_flatten_count/_place, c19_tree_count/_place, c19_format_count (full since cef00ff), c19_format_place (exact outside the reserved key \"_errors\", modulo reserved segments for every error: c19_format_place_strip; a witness theorem shows the misplacement inside that region), c19_nonempty prove for every issue list (any codes, typed paths, union branches and sub-issues nested to any depth) that FlattenError, TreeifyError and FormatError carry exactly one message per issue (per nested leaf for wrapper issues in FormatError), filed at the position the path denotes, and at least one for a non-empty error. PrettifyError (a single string) is proved about the definition the driver runs (prettifyGo, every path element type; Proofs/C19Pretty.lean): the report is the \"; \"-join of one segment per issue in order, a segment is the message preceded by the dot path unless the path is empty (c19_go_prettify_join/_seg), every issue's segment and message occur in the report (c19_go_prettify_accounts/_msg_occurs), cutting the report at every \"; \" gives back exactly one segment per issue when no segment contains ';' (c19_go_prettify_split_partial; witness c19_go_prettify_split_full_false: a message \"a; b\" reads as two — the report shape cannot tell), the path part identifies the position (c19_dotpath_go_injective), and the report is the empty string exactly for ONE issue at the ROOT whose message is empty (c19_go_prettify_empty_iff, c19_prettify_empty_iff): a non-empty error never formats to an empty report under the stated hypothesis that no message is \"\" (c19_go_nonempty, c19_nonempty; witnesses c19_go_prettify_nonempty_full_false / c19_prettify_nonempty_full_false, re-derived on the real code by the run with a formatter that returns \"\"); for the library's own messages (an issue's Message, else the default formatter's text) the run asks all four reports of every non-empty error to be non-empty, unconditionally. prettifyGo_eq relates prettifyGo to the position-level prettify outside negative ints (witness prettifyGo_neg_differs). c19_dotpath_esc_injective proves for ToDotPath as it stands (quoted keys escaped, since c7ce73a) that two different paths of any length with arbitrary keys never render alike, so PrettifyError, PrettifyErrorWithFormatter and err.Error() (c19_error_eq_prettify) name every position unambiguously. c19_exports_are_internal/_cover, c19_wrappers_as_expected, c19_errors_go_accounted and c19_error_method_as_expected are decided over a table regenerated from gozod.go and internal/issues/errors.go on every run: each exported formatter is the internal function of the same name, each thin entry point hands the unchanged error to the transcribed function with defaultIssueMapper of the right formatter, and no function of errors.go is unaccounted for. The hand-written model is tied to /repo by running model, spec oracle and the real formatters — through the plain entry points, err.Error(), the WithMapper/WithFormatter variants with custom mappers and formatters, and SetFormatter — on thousands of synthesised issue trees and real failing Parse calls and comparing canonical renderings; structure fingerprints of the 16 Go functions involved aim the run when one is edited.",
+   note="Round 4b: every ZodError — path elements of any Go type (the library files Map keys and Set elements of any comparable type in paths: Gen/C19PathTypes.lean, regenerated with go/types, c19_path_types_covered / _any_sources) and nil errors are in the model (Model/IssuesGo.lean), the spec, the generator and the Parse stream; c19_go_tree_place, c19_go_never_panics, c19_go_*_count are the full statements for them, by refinement to the position-level model (flattenGo_eq, formatGo_eq, treeifyGo_eq); c19_parse_dotpath / c19_parse_dotpath_go: the dot notation parses back to the path (injectivity is a corollary). Round 4c (audit B M9/LOW): the Prettify theorems restated about prettifyGo at the strength of the clause (above); the observation carries the clause ne (non-empty error => all four reports non-empty) judged on the implementation alone, the spec column states it (unconditional for the library's own messages, modulo the one-root-issue-with-empty-message region for user-supplied formatters); rendered message lists mark every message (m<hex>) so that a list holding one empty message is not read as an empty list; c19_path_sinks_recognised / _elements_recorded / _nonvacuous: a type-driven enumeration (go/types worklist over every variable, parameter, field and function result that flows into a Path []any field) of every expression a path is built from, with its shape — a construction the translator does not understand is a row 'unrecognised' and breaks the proof (it found slices.Concat in core/context.go:AddIssue and the string elements of checks.resolvePath, which the name-based matcher had missed). Fixed in /repo: c65f4c0 (TreeifyError panic on negative ints, other types ignored), 6ff3a13 (ToDotPath [%v]), e8b2b50 (nil *ZodError). Trusted: Lean kernel; axioms propext/Classical.choice/Quot.sound only; the Go harness, hex line protocol and comparer; the go/ast translator (source text only). The model is a hand transcription validated on generated cases. Issue.msg stands for mapper(issue): the default formatter's text is taken from the library, custom mappers/formatters are computed by the harness. fmt's %v of a path element of another type is computed by the harness with the same call (trusted). FormatError's reserved key \"_errors\" is an open known finding for the placement only (since cef00ff no message is lost; the placement cannot be repaired within the report shape).",
    design="DESIGN.md §5 C19; notes/C19.md")
 
-MODULES = ["Gozod.Proofs.C19", "Gozod.Proofs.C19Dot", "Gozod.Proofs.C19Exports", "Gozod.Proofs.C19Go", "Gozod.Proofs.C19Parse", "Gozod.Proofs.C19PathTypes"]
+MODULES = ["Gozod.Proofs.C19", "Gozod.Proofs.C19Dot", "Gozod.Proofs.C19Exports", "Gozod.Proofs.C19Go", "Gozod.Proofs.C19Parse", "Gozod.Proofs.C19Pretty", "Gozod.Proofs.C19PathTypes"]
 GEN = os.path.join(C.LEAN, "Gozod", "Gen", "C19Exports.lean")
 GEN_PATHS = os.path.join(C.LEAN, "Gozod", "Gen", "C19PathTypes.lean")
 THEOREMS = ["Gozod.C19." + t for t in [
@@ -17,7 +17,7 @@ THEOREMS = ["Gozod.C19." + t for t in [
     "formatError_eq", "c19_format_count", "legacy_fileAt_drops_reserved",
     "c19_format_place_partial", "c19_format_place_strip", "c19_format_place_full_false",
     "c19_prettify_count", "c19_prettify_place", "c19_dotpath_injective_partial", "c19_dotpath_injective_full_false", "dotpath_empty_key",
-    "c19_nonempty",
+    "c19_nonempty", "intercalate_eq_nil_iff", "semi_intercalate_eq_empty_iff", "c19_prettify_empty_iff", "c19_prettify_nonempty_full_false",
     "esc_split", "segDotEsc_split", "c19_dotpath_esc_injective", "c19_dotpath_esc_nonempty",
     "dotPath_eq_esc", "c19_dotpath_injective_escfree", "plainPath_escFree", "dotpath_backslash_outside",
     "c19_exports_are_internal", "c19_exports_cover", "c19_wrappers_as_expected", "c19_errors_go_accounted",
@@ -31,6 +31,11 @@ THEOREMS = ["Gozod.C19." + t for t in [
     "c19_go_never_panics", "reportsCfg_fixed", "treeifyCfg_fixed", "treeifyCfg_head",
     "treeInsertOld_eq_dropOther", "treeInsertOld_plain", "treeInsertOld_none_iff", "c19_old_tree_partial",
     "old_tree_panics_negative", "old_tree_misfiles_other", "c19_old_tree_full_false", "old_nil_panics",
+    # PrettifyError, about the definition the driver runs (Proofs/C19Go.lean, C19Pretty.lean)
+    "prettySegGo_eq_empty_iff", "c19_go_prettify_empty_iff", "c19_go_prettify_nonempty_full_false",
+    "c19_go_prettify_join", "c19_go_prettify_seg", "c19_go_prettify_accounts", "c19_go_prettify_msg_occurs",
+    "splitSemi_intercalate", "c19_go_prettify_split_partial", "c19_go_prettify_split_full_false",
+    "prettifyGo_eq", "prettifyGo_neg_differs",
     # the dot notation as a grammar (Proofs/C19Parse.lean)
     "unesc_esc", "parseSegs_seg", "c19_parse_dotpath_go", "c19_parse_dotpath", "c19_dotpath_go_injective",
     "c19_dotpath_typed_injective", "c19_dotpath_esc_injective'", "old_dotpath_other_conflates",
@@ -38,9 +43,10 @@ THEOREMS = ["Gozod.C19." + t for t in [
     "leafCount_pos", "c19_format_accounts_every_issue",
     # the Go types the library itself puts into paths, over the table regenerated with go/types (Proofs/C19PathTypes.lean)
     "c19_path_types_covered", "c19_el_needed", "c19_path_types_any_sources", "c19_path_types_typed_present",
+    "c19_path_sinks_recognised", "c19_path_sinks_elements_recorded", "c19_path_sinks_nonvacuous",
 ]]
 
-PARTS = ("flat", "tree", "fmt", "pretty")
+PARTS = ("flat", "tree", "fmt", "pretty", "ne")
 
 def parts(line):
     d = {}
@@ -57,9 +63,10 @@ def features(op):
     """Classify the issue tree of an op line (token scan; enough to name the failure class)."""
     t = C.op_body(op).split(" ")
     f = set()
-    if len(t) > 2 and t[2] == "nil":
+    # t = c19 cfg=.... dm=. <n | nil> issues...
+    if len(t) > 3 and t[3] == "nil":
         return {"nil-error"}
-    i = 3
+    i = 4
     # walk the token stream: I code npath segs... msg nb (n issues...)* ni issues*
     def issue(i, depth):
         assert t[i] == "I", (i, t[i])
@@ -95,7 +102,7 @@ def features(op):
             k = bytes.fromhex(segs[0][1:]).decode("utf-8", "replace")
             if k and (k[0].isdigit() or not re.fullmatch(r"[A-Za-z0-9_]*", k)): f.add("first-key-needs-brackets")
         return i
-    n = int(t[2])
+    n = int(t[3])
     for _ in range(n):
         i = issue(i, 0)
     return f
@@ -162,7 +169,7 @@ def run(res):
         C.tie_broken(res, "translator C19 (gozod.go, internal/issues/errors.go -> Gen/C19Exports.lean; go/types over core, internal/checks, internal/engine, internal/issues, types -> Gen/C19PathTypes.lean)", out[-3000:])
     ok, detail = C.prove(res, MODULES, THEOREMS)
     if not ok:
-        C.tie_broken(res, "proof Gozod.Proofs.C19 / C19Dot / C19Exports (the latter is over the table regenerated from gozod.go and errors.go)", detail)
+        C.tie_broken(res, "proof Gozod.Proofs.C19 / C19Dot / C19Go / C19Pretty / C19Exports / C19PathTypes (the last two are over tables regenerated from gozod.go, errors.go and the five packages that build issue paths: an 'unrecognised' path construction breaks c19_path_sinks_recognised)", detail)
     # --- structure fingerprints of the transcribed Go functions: an edited function aims the run (4x the synthesised cases)
     changed = C.fingerprint(res, "C19")
     aimed = set()
@@ -190,10 +197,11 @@ def run(res):
         "issues, key/element issues with 0-3 sub-issues, nesting depth <= 3; duplicated and separator-containing messages) wrapped as a struct-literal ZodError "
         "or on a copy of a real error; and errors of real failing Parse calls of generated Object/StrictObject/Slice/Array/Tuple/Union/Record/Map schemas "
         "on generated values. Keys also carry double quotes, backslashes and brackets; a tenth of the lists nests wrapper issues to depth 6; 6 % of the issues are exact repeats; nil Issues. "
-        "45 % of the cases are observed through another entry point: err.Error(), FlattenErrorWithFormatter/PrettifyErrorWithFormatter/SetFormatter with a custom formatter, "
+        "45 % of the cases are observed through another entry point: err.Error(), FlattenErrorWithFormatter/PrettifyErrorWithFormatter/SetFormatter with a custom formatter or with a formatter that returns \"\" for root and custom issues (blank-formatter: empty messages), "
         "FlattenErrorWithMapper/TreeifyErrorWithMapper with a custom mapper, ...WithFormatter(e, e.Formatter()). distinct = distinct issue trees.")
     res.assumptions += [
-        "Issue.msg stands for mapper(issue): for the default mapper the harness asks the library for it (empty messages occur in 15 % of the lists), for custom mappers/formatters it computes it itself",
+        "Issue.msg stands for mapper(issue): for the default mapper the harness asks the library for it (issues without a Message of their own occur in 15 % of the lists), for custom mappers/formatters it computes it itself",
+        "READING DECISION (round 4c): 'a non-empty error never formats to an empty report' is read with the hypothesis that no message is the empty string. A message is what the mapper / formatter returns; a user-supplied formatter that returns \"\" for the only issue of an error, filed at the root, makes PrettifyErrorWithFormatter return \"\" (one empty message, faithfully carried; Flatten/Treeify/FormatError carry it as one empty entry). This is the exact region (c19_go_prettify_empty_iff); it is not reachable with the library's own messages (Issue.Message, else DefaultMessageFormatter.FormatMessage, which returns a non-empty text on every arm) — the run checks that unconditionally (dm=1 cases)",
         "a path element that is neither string nor int is represented by its fmt %v text (all four formatters read it through %v only); the position it denotes is the key of that text (reading decision El.pos, notes/C19.md)",
         "a nil *ZodError carries no issue: its reports are those of an error without issues; (*ZodError)(nil).Error() == \"\" is not a report",
         "FormatError replaces wrapper issues (invalid_union with branch errors, invalid_key/invalid_element with sub-issues) by their nested leaves with the wrapper's path as prefix (reading decision, notes/C19.md)",
